@@ -5,4 +5,4 @@ Extraction Language OCaml.
 Extraction "worker_model.ml" frame unframe merge read_merged handle_chart read_day chart_ok programs_ok
   go_major_minor split_counter_name expand is_toolchain
   rank_lt iter_id group max_week spec_count chart_object_name fmt_date
-  step run_ops ws_empty b_get read_state_day day_objects copy_range merge_fd merge_events open_peak handle_chart_ctx.
+  step run_ops ws_empty b_get read_state_day day_objects copy_range merge_fd merge_events open_peak handle_chart_ctx handle_chart_fault.
